@@ -322,36 +322,29 @@ def hexlist(v):
 
 
 def prepend_phase(ctx, n):
+    """C09-F1 was fixed by /repo commit 5884ffb: comment-less targets are part of the bulk stream and
+    any loss is a violation again."""
     rng = ctx.rng.fork()
-    f1 = next((f for f in ctx.open_findings if f["id"] == "C09-F1"), None)
-    cases = []
+    cases = [(0, ["kept"], [[], ["other"]])]      # the former C09-F1 witness
     for _ in range(n):
-        groups = [[f"g{gi}c{j}" for j in range(rng.pick([0, 1, 1, 2, 3]))] for gi in range(rng.range(1, 4))]
+        groups = [[f"g{gi}c{j}" for j in range(rng.pick([0, 0, 1, 1, 2, 3]))] for gi in range(rng.range(1, 4))]
         target = rng.below(len(groups))
         extra = [f"e{j}" for j in range(rng.pick([0, 1, 2, 3]))]
-        if not groups[target] and extra:      # open signature C09-F1: steer the bulk stream away
-            groups[target] = ["own"]
         cases.append((target, extra, groups))
-    probe = (0, ["lost"], [[], ["other"]])    # dedicated probe for C09-F1
-    cases.append(probe)
     lines = [f"prepend {t} {hexlist(e)} " + " ".join(hexlist(g) for g in gs) for t, e, gs in cases]
     impl, model = common.run_pair(PROP, lines)
     for (t, e, gs), a, l in zip(cases, impl, lines):
         want = "r:" + hexlist(e + gs[t])
         if not a.startswith(want + " "):
-            is_f1 = (not gs[t]) and bool(e) and a.startswith("r:- ")
-            if is_f1 and f1:
-                ctx.known(f1, "prepend on a comment-less node returns the old empty reference")
-            else:
-                ctx.violation("mod_associated_comments_with_additional_preceding_comments loses comments: expected "
-                              + want + ", got " + a, {"protocol": "prepend", "line": l, "impl": a})
-                return n
+            ctx.violation("mod_associated_comments_with_additional_preceding_comments loses comments: expected "
+                          + want + ", got " + a, {"protocol": "prepend", "line": l, "impl": a})
+            return n
     i = common.first_diff(impl, model)
     if i is not None:
-        ctx.violation("model/implementation disagreement on protocol prepend (Model/CommentQueue.lean vs source_parser.rs:2181-2197)",
+        ctx.violation("model/implementation disagreement on protocol prepend (Model/CommentQueue.lean vs source_parser.rs:2181-2196)",
                       {"protocol": "prepend", "line": lines[i], "impl": impl[i], "model": model[i] if i < len(model) else None,
-                       "broken": "correspondence `prepend`; prepend_conserves_counterexample/_partial describe the old code"}, no_input=True)
-    return n
+                       "broken": "correspondence `prepend`; theorem prepend_conserves no longer speaks about this code"}, no_input=True)
+    return n + 1
 
 
 # ------------------------------------------------------------------------------------------------
@@ -438,6 +431,36 @@ def repo_pieces(max_tokens=140):
     return [p for p, a in zip(out, ans) if a.startswith("ok ")]
 
 
+LONG_TEXT = " ".join(["lorem", "ipsum", "dolor", "sit", "amet"] * 6)
+VARIANT_TEXTS = ["x", "é 日本 z", LONG_TEXT, "a  b", "TODO: fix (this) = that -> x", "TWO"]
+
+
+def text_id(text):
+    if text == "cmt one":
+        return 0
+    if text in VARIANT_TEXTS:
+        return 1 + VARIANT_TEXTS.index(text)
+    return 6 if "second" in text else 9
+
+
+def select_all(bases):
+    """Deterministic enumeration (identical in the check and in the reference run): every gap x every
+    comment kind with a short text, plus one variant per gap (one word, multi-byte, longer than the
+    line, double blank, punctuation, two adjacent comments), chosen by a hash of module and gap."""
+    def select(bi, ngaps):
+        h = int(hashlib.sha1(bases[bi].encode()).hexdigest()[:8], 16)
+        for g in range(ngaps):
+            for kind in COMMENT_KINDS:
+                yield (g, kind, "cmt one", 100)
+            r = common.Rng(h * 1000003 + g)
+            text = r.pick(VARIANT_TEXTS)
+            kind = r.pick(COMMENT_KINDS)
+            if text == "TWO":   # two adjacent comments in the same gap
+                text = "first\n// second" if kind == "line" else "first */ /* second"
+            yield (g, kind, text, 100)
+    return select
+
+
 def comment_text(kind, text):
     if kind == "line":
         return f"// {text}\n"
@@ -455,7 +478,7 @@ def make_cases(bases, basetoks, select):
             p = pos[gi]
             m = (b[:p] + (" " + comment_text(kind, text) + " ").encode() + b[p:]).decode()
             cases.append({"base": bi, "gap": gi, "kind": kind, "text": text, "width": width,
-                          "key": f"{hashlib.sha1(b).hexdigest()[:10]}:{gi}:{kind}",
+                          "key": f"{hashlib.sha1(b).hexdigest()[:10]}:{gi}:{kind}:{text_id(text)}",
                           "ctx4": " ".join(cls[gi:gi + 4]), "ctx2": " ".join(cls[gi + 1:gi + 3]), "src": m})
     return cases
 
@@ -585,6 +608,8 @@ def classify(ctxs, c):
         return "C09-F4"
     if k == "dropped" and c.get("key") in ctxs["dropped_set"]:
         return "C09-F2"
+    if k == "nonidempotent" and c.get("key") in ctxs["nonidem_set"]:
+        return "C09-F5"
     return None
 
 
@@ -592,26 +617,15 @@ def module_phase(ctx):
     rng = ctx.rng.fork()
     ctxs = load_contexts()
     ctxs["dropped_set"] = set(ctxs.get("dropped", []))
+    ctxs["nonidem_set"] = set(ctxs.get("nonidempotent", []))
     bases = list(HAND_BASES) + IMPORT_BASES
     pieces = repo_pieces(140 if ctx.quick else 400)
     nhand = len(bases)
     bases += pieces
     basetoks = tokens_of(bases)
-    long_text = " ".join(["lorem", "ipsum", "dolor", "sit", "amet"] * 6)
-    def select(bi, ngaps):
-        # (a) exhaustive, seed-independent: every gap x every comment kind
-        for g in range(ngaps):
-            for kind in COMMENT_KINDS:
-                yield (g, kind, "cmt one", 100)
-        # (b) seed-dependent variants: other texts (one word, multi-byte, longer than the line) and widths
-        r = common.Rng(ctx.seed * 1000003 + bi)
-        for _ in range(ctx.scale(12, 120)):
-            text = r.weighted([("x", 2), ("é 日本 z", 2), (long_text, 3), ("a  b", 1), ("TODO: fix (this) = that -> x", 2), ("TWO", 3)])
-            kind = r.pick(COMMENT_KINDS)
-            if text == "TWO":   # two adjacent comments in the same gap
-                text = "first\n// second" if kind == "line" else "first */ /* second"
-            yield (r.below(ngaps), kind, text, r.weighted([(100, 5), (60, 2), (40, 1)]))
-    cases = judge(make_cases(bases, basetoks, select))
+    select = select_all(bases)
+    multi = multi_comment_cases(rng, ctx.scale(40, 400))
+    cases = judge(make_cases(bases, basetoks, select) + multi)
     stats = collections.Counter()
     known_hits = collections.Counter()
     reported = 0
@@ -662,6 +676,9 @@ def module_phase(ctx):
                        "impl_text": uh(a.split(" ")[1]) if a.startswith("ok ") else a[:200],
                        "model_text": uh(b.split(" ")[1]) if b.startswith("ok ") else b[:200],
                        "broken": "correspondence `fmtdoc`"}, no_input=True)
+    n_imports = 0
+    if not any(not v[1] for v in ctx.violations):
+        n_imports = imports_phase(ctx, [c["src"] for c in multi] + IMPORT_BASES + [c["src"] for c in cases if c["base"] >= 0 and bases[c["base"]] in IMPORT_BASES][::7])
     docs = [a.split(" ", 2)[2] for a in impl if a.startswith("ok ")]
     agree = run_d(["agree " + d for d in docs])
     agree_stats = collections.Counter()
@@ -673,8 +690,61 @@ def module_phase(ctx):
                            "broken": "hypothesis `Agree commentKey d` on the printer's documents"}, no_input=True)
             break
     return {"module_cases": len(cases), "module_verdicts": dict(stats), "known_finding_hits": dict(known_hits),
+            "import_sections_equal_to_model": n_imports, "multi_comment_import_cases": len(multi),
             "bases_hand": nhand, "bases_repo_pieces": len(pieces), "real_documents_laid_out_by_model": len(docs),
             "agree_on_real_documents": dict(agree_stats)}, cases, samples
+
+
+def multi_comment_cases(rng, n_random):
+    """Modules with 0..4 import lines (also several lines of one module), one distinct comment before
+    every import line, before the class and at the end — all at once."""
+    specs = [list(sp) for sp in IMPORT_SPECS] + [[]]
+    mods = ["m.A", "m.B", "a.C", "std.list"]
+    for _ in range(n_random):
+        specs.append([(rng.pick(mods), ", ".join(rng.shuffle(["P", "Q", "R"])[:rng.range(1, 3)])) for _ in range(rng.range(0, 4))])
+    cases = []
+    for si, sp in enumerate(specs):
+        for kind in COMMENT_KINDS:
+            for semi in (True, False):
+                for tail in ("class Main { function main(): unit = {} }\n", ""):
+                    parts = []
+                    for li, (pth, mem) in enumerate(sp):
+                        if rng.chance(5, 6):
+                            parts.append(comment_text(kind if rng.chance(3, 4) else rng.pick(COMMENT_KINDS), f"k{li} on {pth.replace('.', ' ')}"))
+                        parts.append(f"import {{ {mem} }} from {pth}{';' if semi else ''}\n")
+                    parts.append(comment_text(kind, "before class") + "\n" if tail else "")
+                    parts.append(tail)
+                    parts.append(comment_text(kind, "at end"))
+                    cases.append({"base": -1, "gap": -1, "kind": kind, "text": "multi", "width": 100, "key": None,
+                                  "ctx4": "MULTI (one comment per import line)", "ctx2": "MULTI", "src": "".join(parts)})
+    return cases
+
+
+def imports_phase(ctx, srcs):
+    """Tie of Model/Imports.lean: the model's document of the import section vs the real Document."""
+    impl = run_h(["imports " + hexs(s) for s in srcs])
+    mlines = []
+    for a in impl:
+        if a.startswith("ok "):
+            _, shape, dump, _ = a.split(" ", 3)
+            mlines.append(f"importsdoc {shape} {dump}")
+        else:
+            mlines.append("echo " + a)
+    model = run_d(mlines)
+    ok = 0
+    for s, a, b in zip(srcs, impl, model):
+        if not a.startswith("ok "):
+            continue
+        shape = a.split(" ")[1]
+        da, db = a.split(" | ", 1)[1], (b.split(" | ", 1) + [""])[1]
+        good = (da == db) if shape == "only" else (db == "" or da == db or da.startswith(db + " "))
+        if a.split(" | ")[0] != b.split(" | ")[0] or not good:
+            ctx.violation("model/implementation disagreement on protocol imports (Model/Imports.lean vs source_module_to_document/import_to_document): the import section of the real Document is not what the model builds",
+                          {"protocol": "imports", "source": s, "impl_doc": da[:3000], "model_doc": db[:3000],
+                           "broken": "correspondence `imports`; imports_conserve_comments speaks about the model only"}, no_input=True)
+            break
+        ok += 1
+    return ok
 
 
 def regen_contexts():
@@ -683,19 +753,19 @@ def regen_contexts():
     common.build_harness(PROP)
     bases = list(HAND_BASES) + IMPORT_BASES + repo_pieces(400)
     basetoks = tokens_of(bases)
-    def select(bi, ngaps):
-        for g in range(ngaps):
-            for kind in COMMENT_KINDS:
-                yield (g, kind, "cmt one", 100)
+    select = select_all(bases)
     cases = judge(make_cases(bases, basetoks, select))
     dropped = sorted({c["key"] for c in cases if c["fail"] == "dropped"})
-    other = collections.Counter(c["fail"] for c in cases if c["fail"] not in (None, "dropped", "skip-unparseable"))
+    nonidem = sorted({c["key"] for c in cases if c["fail"] == "nonidempotent"
+                      and not only_empty_line_comments_added(c.get("out") or "", c.get("out2") or "")})
+    other = collections.Counter(c["fail"] for c in cases if c["fail"] not in (None, "dropped", "nonidempotent", "skip-unparseable"))
     ctx4 = sorted({c["ctx4"] for c in cases if c["fail"] == "dropped"})
     json.dump({"_comment": "generated by `python3 -m vlib.c09 regen` on the unchanged tree: exact positions (sha1(module text)[:10]:gap index:comment kind) at which parse+print drops an inserted comment (finding C09-F2); dropped_contexts is informational only (prev2 prev | next next2 token classes)",
-               "cases": len(cases), "dropped": dropped, "dropped_contexts": ctx4}, open(CTX_FILE, "w"), indent=0)
+               "cases": len(cases), "dropped": dropped, "nonidempotent": nonidem, "dropped_contexts": ctx4}, open(CTX_FILE, "w"), indent=0)
+    print("nonidempotent positions:", len(nonidem))
     print("dropped positions:", len(dropped), "contexts:", len(ctx4), "cases:", len(cases), "other failures:", dict(other))
     for c in cases:
-        if c["fail"] not in (None, "dropped", "skip-unparseable"):
+        if c["fail"] not in (None, "dropped", "nonidempotent", "skip-unparseable"):
             print(c["fail"], c["ctx4"], repr(c["src"][:300])); break
 
 
